@@ -33,7 +33,7 @@ func genCase(t *rapid.T) Case {
 	// the IO opcodes have different widths (1, 2, 3 bits) in every combination
 	ports := []int{2, 2, 3, 5}
 	maxIn, maxOut := rapid.SampledFrom(ports).Draw(t, "maxin"), rapid.SampledFrom(ports).Draw(t, "maxout")
-	c.Spec = gen.HandshakeMachine(t, gen.HSOptions{MaxProcs: 4, MaxPad: 3, MaxIn: maxIn, MaxOut: maxOut, NoFanout: nofan, EqualLoops: rapid.Bool().Draw(t, "equalloops"), Replicate: true, RichALU: rapid.Bool().Draw(t, "richalu"), RAM: true, Thru: true})
+	c.Spec = gen.HandshakeMachine(t, gen.HSOptions{MaxProcs: 4, MaxPad: 3, MaxIn: maxIn, MaxOut: maxOut, NoFanout: nofan, EqualLoops: rapid.Bool().Draw(t, "equalloops"), Replicate: true, RichALU: rapid.Bool().Draw(t, "richalu"), RAM: true, Thru: true, UnusedIO: true})
 	c.Commented = rapid.IntRange(0, 3).Draw(t, "commented") == 0
 	for i := 0; i < c.Spec.Inputs; i++ {
 		n := rapid.IntRange(0, 20).Draw(t, "nin")
